@@ -21,6 +21,10 @@ RuntimeError whatever the callee is), an explicit asyncio_fn= that is not an `as
 coroutine / a generic awaitable with __await__ only / an asyncio Task, a partial of the coroutine function, objects with an async
 __call__ or a __call__ returning a generic awaitable - (`afnobj`: what such an asyncio_fn returns reaches the yield of the
 enclosing function, bare or inside list / tuple / dict, and has to be awaited like a coroutine).
+Third audit (A3, B8): the SEVENTH form of an asyncio_fn - a generator-based coroutine (`@types.coroutine`) - is part of the program
+language (ys tag `gco`, Lean `Ys.gco`: resolve_awaitables rejects the generator object at the yield), and so is the product cell
+pure x method (call [pure, 0, label, 2]; as the ROOT its `.asyncio` does not exist: Lean `Asyncio.observeR true`).  Both are OPEN
+findings, generated in both tiers, modelled as the code is and rejected by the observer (clause equiv / deliveries).
 The Lean model (AsynqModel.Lib.Asyncio) runs the same program (correspondence, per-task form of the logs) and the Lean
 observer `Asyncio.specClauseP` judges the implementation's observations:
   observation-only clauses (`Asyncio.spec`): flag off before / after / on inside, siblings complete, synchronous calls refused
@@ -33,10 +37,11 @@ observer `Asyncio.specClauseP` judges the implementation's observations:
 The observer reads of a log only what the correspondence check compares (per-task sub-logs, first event; never the order of
 events of different tasks): equal views give equal verdicts (C15_spec_respects_correspondence).  It is proved of the model for
 every program that satisfies `Prog.safe` (no handler catches BaseException, or no BaseException-only error is raised) and
-`Prog.plainY` (no container-subclass yield, no async_proxy function returning a non-future, no future other than a ConstFuture):
-C15_spec_holds_partial, C15_specP_holds_partial; for the rest the code as it is violates the property:
-C15_base_handler_counterexample, C15_container_subclass_counterexample, C15_proxy_value_counterexample,
-C15_other_future_resolved."""
+`Prog.plainY` (no container-subclass yield, no async_proxy function returning a non-future, no generator-based asyncio_fn):
+C15_spec_holds_partial, C15_specP_holds_partial, C15_case_spec_holds_partial (root not a pure=True method); for the rest the
+code as it is violates the property: C15_base_handler_counterexample, C15_container_subclass_counterexample,
+C15_proxy_value_counterexample, C15_generator_coroutine_asyncio_fn_counterexample, C15_pure_method_root_counterexample
+(C15_other_future_resolved: the former finding about ErrorFuture / lazy Future, repaired)."""
 import hashlib
 import json
 import random
@@ -60,6 +65,7 @@ HEADLINE_THEOREMS = [
     "AsynqModel.Asyncio.C15_spec_respects_correspondence",
     "AsynqModel.Asyncio.C15_spec_holds_partial",
     "AsynqModel.Asyncio.C15_specP_holds_partial",
+    "AsynqModel.Asyncio.C15_case_spec_holds_partial",
 ]
 # where the code as it is violates the property, and the necessity of every hypothesis (machine-checked witnesses)
 COUNTEREXAMPLE_THEOREMS = [
@@ -68,6 +74,8 @@ COUNTEREXAMPLE_THEOREMS = [
     "AsynqModel.Asyncio.C15_base_handler_counterexample",
     "AsynqModel.Asyncio.C15_container_subclass_counterexample",
     "AsynqModel.Asyncio.C15_proxy_value_counterexample",
+    "AsynqModel.Asyncio.C15_generator_coroutine_asyncio_fn_counterexample",
+    "AsynqModel.Asyncio.C15_pure_method_root_counterexample",
     "AsynqModel.Asyncio.C15_other_future_resolved",
     "AsynqModel.Asyncio.C15_dedup_sync_refused",
     "AsynqModel.Asyncio.C15_noSync_necessary",
@@ -95,7 +103,7 @@ BY_CONSTRUCTION_THEOREMS = [
 BY_CONSTRUCTION = BY_CONSTRUCTION_THEOREMS
 THEOREMS = HEADLINE + BY_CONSTRUCTION
 BUILDS = {"quick": ["py"], "thorough": ["py", "cy"]}
-RULE = ("corpus (21 minimised programs), a fixed family (every call kind x explicit asyncio_fn x 14 body shapes; every child "
+RULE = ("corpus (24 minimised programs), a fixed family (every call kind x explicit asyncio_fn x 14 body shapes; every child "
         "kind under a bare and a gathered yield; dict/list/tuple whose FIRST failure in structure order is the slowest with a "
         "slower success beside it; empty structures; synchronous calls of every kind; BaseException-only errors raised by every "
         "kind of child, first / second in structure order beside an ordinary failure, passing through an intermediate task; "
@@ -109,7 +117,11 @@ RULE = ("corpus (21 minimised programs), a fixed family (every call kind x expli
         "it, by the second use; every declaration over a functools.partial / a callable object / a partial of a partial as the "
         "callee of a plain synchronous call, as child and as root - usage flag wrapc -; every declaration with asyncio_fn= written "
         "in 6 forms that are not `async def` as a child under a bare yield, inside list / tuple / dict, one level down, failing "
-        "beside a sibling with a handler that goes on, through asynq.async_call - usage flag afnobj), a "
+        "beside a sibling with a handler that goes on, through asynq.async_call - usage flag afnobj; `family_audit3`: every "
+        "declaration that takes asyncio_fn= with the SEVENTH form - a generator-based coroutine, ys tag gco - as a child under a "
+        "bare yield, inside list / tuple / dict beside succeeding and failing siblings, one level down, beside the same "
+        "declaration with an `async def` asyncio_fn; the product cell pure x method as the root - 6 bodies, through the "
+        "instance and through the class - and as a child of a function / a method / a pure function, bare and gathered), a "
         "value family (13 unusual kinds of returned object x 7 places a value travels through x call kinds), SIZE families with "
         "the size as a parameter (wide: one yield of 5..513 (thorough ..2049) entries with failures at chosen positions, list / "
         "tuple / dict, nested or not; deep: containers nested 4..100 (..200) levels; long: one generator resumed 5..1001 (..2500) "
@@ -121,7 +133,9 @@ RULE = ("corpus (21 minimised programs), a fixed family (every call kind x expli
         "synchronous calls more often) and @deduplicate() children, in 2 of 5 yields of constants only that are repeated by the "
         "next yield, raise / raiseB / re-raise / return / result() of plain or unusual objects, handler "
         "(except Exception or except BaseException) or no handler at every yield, plain synchronous calls (the malformed stream: "
-        "non-futures and synchronous calls under asyncio); each program is run in five ways (call, value, aio, aiorun, aiotask) "
+        "non-futures and synchronous calls under asyncio); plus n/25 programs in which the asyncio_fn of 15% / 40% of the children that can take one is a generator-based "
+        "coroutine (gco) and n/50 programs with pure=True METHODS (half of the pure children; the root in 1 program of 2); "
+        "each program is run in five ways (call, value, aio, aiorun, aiotask) "
         "with fresh or shared decorated functions, first or second use, and the usage flags reuse (1/2) / onedeco (3/10) / "
         "thread (12%) / copyb (15%) / gc (6%), and - outside the open findings - wrapc (35% of the programs with a synchronous call, 8% "
         "of the others) / afnobj (35% of the programs with an explicit asyncio_fn on a call site other than the root; the form by "
@@ -138,7 +152,9 @@ TRUSTED = [
     "completed' only if the engine started them; the usage flags reuse / onedeco / thread / copyb / gc change how the "
     "harness uses the public API, never what the model is given; so do wrapc / afnobj: no theorem speaks about WHAT is "
     "decorated or HOW an asyncio_fn is written - the model has one refusal for every callee and one `await` for every asyncio_fn, "
-    "and the two flags are judged by the correspondence with it and by the observer alone)",
+    "and the two flags are judged by the correspondence with it and by the observer alone; a root whose `.asyncio` attribute "
+    "does not exist - the pure=True method - is observed as a run that ends with that AttributeError and logs nothing: `acall` "
+    "hands the error to the caller inside a coroutine)",
     "asyncio event loop, contextvars (ensure_future copies the context), CPython generator/with semantics",
 ]
 ASSUMPTIONS = [
@@ -151,26 +167,47 @@ ASSUMPTIONS = [
     "running the asynq scheduler inside the event loop - excluded, resolve_awaitables raises TypeError for it)",
     "hypotheses of the equivalence theorems (each with a machine-checked counterexample): Prog.safe (every handler is `except "
     "Exception`, or no BaseException-only error is raised; sufficient, not a characterisation), Prog.plainY (no yielded "
-    "instance of a subclass of tuple / list / dict, no async_proxy function returning a non-future, no future other than a "
-    "ConstFuture - ErrorFuture, lazy Future - made in a yield), and for statements about outcomes Prog.noSync or 'the asyncio "
+    "instance of a subclass of tuple / list / dict, no async_proxy function returning a non-future, no child whose explicit "
+    "asyncio_fn is a generator-based coroutine - an ErrorFuture / a lazy Future made in a yield is inside since /repo f8c8dff), "
+    "for statements about a whole case `pm = false` (the root is not a pure=True METHOD), and for statements about outcomes Prog.noSync or 'the asyncio "
     "run logged no synchronous call' (refused by design); programs outside them ARE generated and reported (findings)",
-    "Prog.validCalls (hypothesis of the theorems about refused synchronous calls; = valid_call below + no `pure` callee of a "
-    "plain synchronous call): the Lean type `Call` has terms the library gives another meaning to and the harness never "
+    "Prog.validCalls (= valid_call below + no `pure` callee of a plain synchronous call; NOT a hypothesis of any theorem: the "
+    "four statements about refused synchronous calls carried it unused and have dropped it - third audit C - they hold of the "
+    "model for every term and are statements about the code for programs inside validCalls): the Lean type `Call` has terms the library gives another meaning to and the harness never "
     "sends - `pure(args)` is not a synchronous call (it returns the task; under asyncio an un-awaited coroutine, nothing is "
     "refused), @async_proxy(sync_fn=f) is not an @asynq() function (AsyncAndSyncPairProxyDecorator.__call__ runs f whatever "
-    "the flag), asyncio_fn= does not exist for pure / @deduplicate() declarations.  The hypothesis is not used by the proofs "
-    "(the model refuses every term); it delimits where the model is tied to the code",
+    "the flag), asyncio_fn= does not exist for pure / @deduplicate() declarations.  The predicate delimits where the model is "
+    "tied to the code",
     "BaseException-only errors are instances of a user-defined subclass of BaseException (KeyboardInterrupt, SystemExit and "
     "asyncio.CancelledError, which the event loop itself interprets, are not raised; they do occur as returned VALUES)",
     "an explicit asyncio_fn is a faithful asyncio version of the function (here: it logs and awaits the undecorated "
     "function's .asyncio())",
-    "asynq.result(x) of a future-like x asserts on both engines alike and is not generated; allow_sync_call=True (the "
-    "documented opt-out of the refusal) is not generated",
+    "asynq.result(x) of a future-like x asserts on both engines alike and is not generated; allow_sync_call=True is outside the "
+    "statement ('raises RuntimeError instead of blocking the loop' is about the default) and not generated - what the code does "
+    "with the flag set (checked by hand on /repo 28d2b07): `__call__` while the asyncio flag is on logs a warning with the text "
+    "of the refusal and returns None WITHOUT running the function or its sync_fn (AsyncDecorator.__call__ / "
+    "AsyncAndSyncPairDecorator.__call__); on a sync_fn= pair reached as a method the flag is lost "
+    "(AsyncAndSyncPairDecorator.__get__ rebuilds the decorator without it), so that call raises the RuntimeError all the same",
+    "MALFORMED child calls are not generated (third audit A3, second case): every call site of the language passes arguments "
+    "the callee can bind.  A call Python cannot bind (`child.asynq(1, 2)` of a one-parameter GENERATOR function) raises its "
+    "TypeError when the call expression is evaluated under fn(args) (`_call_pure` calls `self.fn(*args)`: a generator function "
+    "binds at the call) but only when the coroutine is awaited under .asyncio() (`async def wrapped(*_args, **_kwargs)` accepts "
+    "anything; `fn(*_args)` runs inside it): `t = child.asynq(1, 2)` outside a try block and `yield t` inside it is 'raised' "
+    "under fn(args) and 'caught' under .asyncio() (seen by hand on /repo 28d2b07); with call and yield in one expression - the "
+    "only form of this language, `yield child.asynq(..)` - both engines agree.  Reason for the exclusion: such a call creates "
+    "no task, so the program is not a 'tree of tasks' of the quantifier, and separating creation from the yield would need "
+    "first-class task variables that the program language and the model do not have (non-generator functions, explicit "
+    "asyncio_fns and async_proxy functions bind at the same point in both engines)",
+    "the seventh form of an asyncio_fn (generator-based coroutine, tag gco) is generated for CHILDREN only: the root keeps an "
+    "`async def` asyncio_fn (awaiting `f.asyncio(1)` directly accepts the generator; asyncio.run / ensure_future of the harness "
+    "refuse it: 'a coroutine was expected'); a gco call site and a pure-method call site are always called directly, never "
+    "through asynq.async_call (asyncio_call's `await fn.asyncio(..)` ACCEPTS the generator, and `fn.asyncio` of a pure method "
+    "handed to it meets the missing attribute of finding pure-method-has-no-asyncio as a child: both seen by hand)",
     "usage flags wrapc / afnobj: the ROOT call keeps an `async def` asyncio_fn (asyncio.run / ensure_future of the harness want a "
     "coroutine); bound methods and objects with a generator __call__ are not decorated (qcore's DecoratorBase unwraps a bound "
     "method like a classmethod object; `inspect` does not take such an object for a generator function); the flags are inert in "
-    "programs inside the three open findings (a yielded object that one engine never awaits would leave an eagerly made Task "
-    "unfinished); NOT generated: a decorated callable object without __name__ whose __repr__ raises (the refusal message formats "
+    "programs inside the open findings about BaseException handlers and yielded objects - container subclasses, proxy values, "
+    "gco children - (a yielded object that one engine never awaits would leave an eagerly made Task unfinished); NOT generated: a decorated callable object without __name__ whose __repr__ raises (the refusal message formats "
     "the callee: the exception of __repr__ then replaces the RuntimeError - seen by hand on the unchanged tree, see INTEGRATION.md)",
     "the ROOT function of a case is declared without sync_fn (with one, fn(args) IS sync_fn(args) by definition - comparing "
     "fn.asyncio(args) with it is not what the property states); every other call site may be; a sync_fn= is a faithful "
@@ -198,15 +235,23 @@ AFN_KINDS = ("gen", "meth", "proxy", "plain")
 #           | ["pval", ys]   proxy.asynq() of an @async_proxy() function that returns the object ys (None or a container)
 #           | ["efut", e]    ErrorFuture(user error e)      | ["lfut", v]   Future(lambda: v)  (a lazy future)
 #                            (futures that are not ConstFutures; Lean: Ys.ofut)
+#           | ["gco", ["task", call, prog]]   the child task of a call site declared with an explicit asyncio_fn= (afn = 1) that is
+#                            written in the SEVENTH form: a generator-based coroutine (`@types.coroutine def g(..): r = yield
+#                            from ...; return r`) - open finding generator-based-asyncio_fn-rejected-at-yield; Lean: Ys.gco
 #   call := [kind, afn(0/1), label] | [kind, afn(0/1), label, var]
 #           var = sfn + 2 * bind: HOW the function of the call site is declared
 #             sfn  = 1: with `sync_fn=f` (kinds gen / meth / plain; never the root call): f logs `sfn` and makes the plain
 #                       synchronous call of the function declared without sync_fn            (Lean: Call.sfn, Ev.sfn)
 #             bind = 1: kind meth as a classmethod, 2: as a staticmethod (access paths that the model does not distinguish)
+#             bind = 1 with kind pure: the pure=True function is a METHOD of a class (the product cell pure x method).  As a
+#                       child / through fn(args) it is what `pure` is; as the ROOT, `obj.m.asyncio` does not exist - open
+#                       finding pure-method-has-no-asyncio (Lean: Asyncio.observeR true; Drv rootPM)
 # ---------------------------------------------------------------------------------------------------
 SFN_KINDS = ("gen", "meth", "plain")
 WRAPC_KINDS = ("gen", "plain", "dedup", "proxy")   # usage flag wrapc: kinds whose decorated callable may be a partial / an object
 AFN_FORMS = 6                                      # usage flag afnobj: ways of writing an asyncio_fn that is not `async def`
+AFN_FORM_GENCORO = 7                               # the seventh form, a generator-based coroutine (`@types.coroutine`): NOT a usage
+                                                   # flag - the library rejects it at a yield, so the model is told (ys tag "gco")
 BIND_NAMES = ("", "classmethod", "staticmethod")
 
 
@@ -221,6 +266,8 @@ def mk_call(kind, afn, label, var=0):
 def valid_call(c):
     kind, afn = c[0], c[1]
     sfn, bind = call_var(c) % 2, call_var(c) // 2
+    if kind == "pure" and bind == 1 and not sfn and not afn:
+        return True                 # a pure=True METHOD
     if bind > 2 or (sfn and kind not in SFN_KINDS) or (bind and kind != "meth"):
         return False
     return not (afn and kind not in AFN_KINDS)
@@ -253,6 +300,13 @@ OFUT_TAGS = ("efut", "lfut")                  # futures that are not ConstFuture
 # tags of yielded structures inside an OPEN finding (harness/checks/corecommon.py filters SUB_TAGS and "pval" by name; the
 # OFUT_TAGS are produced by `family_other_futures` and `gen_case(ofut=True)` only, which corecommon does not call)
 OPEN_FINDING_TAGS = SUB_TAGS + ("pval",) + OFUT_TAGS
+# (third audit A3 / B8) "gco" and a root [pure, 0, label, 2] are produced by `family_audit3` and `gen_case(gco=True / pm=True)`
+# only, which checks/corecommon.py does not call
+PURE_METHOD_VAR = 2
+
+
+def is_pure_method(c):
+    return c[0] == "pure" and call_var(c) == PURE_METHOD_VAR
 CONTAINER_TAGS = SEQ_TAGS + MAP_TAGS
 
 
@@ -292,7 +346,7 @@ def walk_ys(y):
                 stack.extend(reversed(y[1:]))
             elif y[0] in MAP_TAGS:
                 stack.extend(x for _, x in reversed(y[1:]))
-            elif y[0] == "pval":
+            elif y[0] in ("pval", "gco"):
                 stack.append(y[1])
 
 
@@ -353,6 +407,7 @@ class Gen(object):
         self.p_ofut = 0.0         # probability that a leaf is an ErrorFuture / a lazy Future
         self.p_var = 0.0          # probability that a call site uses an unusual declaration (sync_fn= pair, classmethod, ...)
         self.p_again = 0.0        # probability that a yield is of constants only and is repeated by the next yield
+        self.p_gco = 0.0          # probability that the asyncio_fn of a child is a generator-based coroutine (tag "gco")
         self.dsync = False        # may the callee of a plain synchronous call be a @deduplicate() function (a known divergence)
 
     def tag(self):
@@ -474,7 +529,11 @@ class Gen(object):
         self.budget -= 1
         steps = rng.choices([0, 1, 2, 3], weights=[5, 4, 2, 1])[0]
         body = self.prog(depth + 1, steps, False, p_res, p_sync)
-        return ["task", self.call_for(body), body]
+        c = self.call_for(body)
+        if self.p_gco and c[0] in AFN_KINDS and rng.random() < self.p_gco:
+            c[1] = 1
+            return ["gco", ["task", c, body]]
+        return ["task", c, body]
 
 
 # generate programs in which a handler that catches BaseException meets a BaseException-only error of an awaited child:
@@ -485,9 +544,11 @@ GEN_BASE_DEFECT = True
 GEN_DEDUP_SYNC = True
 
 
-def gen_case(rng, budget=None, ofut=False):
+def gen_case(rng, budget=None, ofut=False, gco=False, pm=False):
     """`ofut`: ErrorFutures / lazy Futures among the leaves (finding non-const-future-yield-rejected-by-asyncio); only `plan`
-    asks for them (checks/corecommon.py draws its asyncio-mode family from gen_case(rng) and filters open findings by tag)"""
+    asks for them (checks/corecommon.py draws its asyncio-mode family from gen_case(rng) and filters open findings by tag).
+    `gco`: children whose explicit asyncio_fn is a generator-based coroutine (finding generator-based-asyncio_fn-rejected-at-
+    yield); `pm`: pure=True METHODS - children, and (1 case of 2) the root (finding pure-method-has-no-asyncio); `plan` only"""
     budget = budget if budget is not None else rng.choice([1, 2, 3, 4, 6, 8, 10, 14])
     g = Gen(rng, budget, p_exotic=rng.choice([0.0, 0.0, 0.1, 0.3, 0.6]), p_wide=rng.choice([0.0, 0.0, 0.0, 0.05, 0.3]))
     # BaseException-only errors with `except Exception` handlers (both engines let them through to the caller), handlers that
@@ -511,6 +572,11 @@ def gen_case(rng, budget=None, ofut=False):
         # one divergence per program (see `signature`)
         g.p_base = g.p_bh = g.p_sub = g.p_pval = 0.0
         g.p_ofut = rng.choice([0.1, 0.3])
+    if gco or pm:
+        # one divergence per program (see `signature`)
+        g.p_base = g.p_bh = g.p_sub = g.p_pval = 0.0
+        if gco:
+            g.p_gco = rng.choice([0.15, 0.4])
     body = g.prog(0, rng.randint(1, 4), False, p_res, p_sync)
     rng2 = random.Random(rng.random())
     if has_yield(body):
@@ -522,6 +588,15 @@ def gen_case(rng, budget=None, ofut=False):
     if g.p_var and rng2.random() < g.p_var:
         # the root is never declared with sync_fn (fn(args) would BE sync_fn(args))
         var = 2 * rng2.choice([1, 2]) if kind == "meth" else 0
+    if pm:
+        # the product cell pure x method: pure children become methods (1 of 2), and so does the root (1 case of 2)
+        for q in walk_progs(body):
+            if q[0] in YLD:
+                for x in walk_ys(q[1]):
+                    if isinstance(x, list) and x[0] == "task" and x[1][0] == "pure" and not call_var(x[1]) and rng2.random() < 0.5:
+                        x[1][:] = mk_call("pure", 0, x[1][2], PURE_METHOD_VAR)
+        if rng2.random() < 0.5:
+            kind, afn, var = "pure", 0, PURE_METHOD_VAR
     return usage({"top": [mk_call(kind, afn, 0, var), body]}, rng2)
 
 
@@ -891,7 +966,7 @@ ALL_USAGE_KEYS = tuple(k for k, _ in USAGE_FLAGS) + tuple(k for k, _ in USAGE_FL
 
 
 def in_open_finding(p):
-    return has_base_handler_and_raise(p) or bool(ys_tags(p) & (set(SUB_TAGS) | {"pval"}))
+    return has_base_handler_and_raise(p) or bool(ys_tags(p) & (set(SUB_TAGS) | {"pval", "gco"}))
 
 
 def has_child_afn(p):
@@ -985,6 +1060,51 @@ def family_callables():
     return cases
 
 
+def family_audit3():
+    """third audit A3 / B8.  (a) the SEVENTH form of an explicit asyncio_fn - a generator-based coroutine (`@types.coroutine`) -
+    on every kind of declaration that takes asyncio_fn=: as a child under a bare yield, inside list / tuple / dict beside
+    succeeding and failing siblings, one level down, with a handler that goes on, beside the same function reached with an
+    `async def` asyncio_fn (resolve_awaitables rejects the generator object: finding generator-based-asyncio_fn-rejected-at-yield).
+    (b) the product cell pure x method: a pure=True METHOD as the root of every way of running (`obj.m.asyncio` does not exist:
+    finding pure-method-has-no-asyncio), reached through the instance and through the class, and as a child (bare, gathered,
+    beside a failure) of a function, of a method and of another pure method.  Kept apart from `family()`, which
+    checks/corecommon.py reuses."""
+    cases = []
+    plain_task = ["task", ["gen", 0, 2], ["ret", 7]]
+    fails = ["task", ["meth", 0, 12], ["yld", "none", ["raise", 2], ["reraise"]]]
+    for kind, _, var in [v for v in variants(("gen", "meth", "plain")) if v[1] == 1] + [("proxy", 1, 0)]:
+        ok = ["ret", 5] if kind == "plain" else ["yld", ["const", 1], ["ret", 5], ["reraise"]]
+        g1 = ["gco", ["task", mk_call(kind, 1, 4, var), ok]]
+        g2 = ["gco", ["task", mk_call(kind, 1, 6, var), ok]]
+        t3 = ["task", mk_call(kind, 1, 9, var), ok]               # the same declaration with an `async def` asyncio_fn
+        cases.append({"top": [["gen", 0, 0], ["yld", g1, ["ret", 1], ["reraise"]]]})
+        cases.append({"top": [["gen", 0, 0], ["yld", g1, ["ret", 1], ["yld", t3, ["ret", 3], ["reraise"]]]]})
+        cases.append({"top": [["meth", 0, 0], ["yld", ["lst", plain_task, g1, t3], ["ret", 1], ["ret", 2]]]})
+        cases.append({"top": [["gen", 0, 0], ["yld", ["dict", [7, ["tup", g1, "none"]], [2, ["lst", fails, g2]]], ["ret", 1], ["ret", 2]]]})
+        cases.append({"top": [["gen", 1, 0], ["yld", ["task", ["gen", 0, 3], ["yld", ["tup", g1, ["const", 3]], ["ret", 1], ["reraise"]]],
+                                              ["ret", 1], ["ret", 2]]]})
+    pmc = lambda label: mk_call("pure", 0, label, PURE_METHOD_VAR)
+    bodies = [
+        ["ret", 1],
+        ["raise", 2],
+        ["yld", ["const", 7], ["ret", 1], ["reraise"]],
+        ["yld", plain_task, ["ret", 1], ["ret", 2]],
+        ["yld", ["lst", plain_task, fails], ["ret", 1], ["ret", 2]],
+        ["yld", ["task", pmc(4), ["yld", "none", ["ret", 5], ["reraise"]]], ["ret", 1], ["reraise"]],
+    ]
+    for b in bodies:
+        cases.append({"top": [pmc(0), b]})
+        cases.append({"top": [pmc(102), b]})          # label % 4 == 2: reached through the class, K.m.asyncio(obj, ...)
+    # as a CHILD a pure method is what a pure function is (both engines run it)
+    for root in (["gen", 0, 0], ["meth", 1, 0], ["pure", 0, 0]):
+        for label in (4, 6, 9):
+            child = ["task", pmc(label), ["yld", ["const", 1], ["ret", 5], ["reraise"]]]
+            bad = ["task", pmc(label + 10), ["yld", "none", ["raise", 3], ["reraise"]]]
+            cases.append({"top": [root, ["yld", child, ["ret", 1], ["ret", 2]]]})
+            cases.append({"top": [root, ["yld", ["tup", child, bad, plain_task], ["ret", 1], ["yld", child, ["ret", 2], ["reraise"]]]]})
+    return cases
+
+
 def value_family():
     """every kind of returned object x the places a value travels through: the top-level result, a bare yield, a list,
     a tuple / dict beside a failing and a succeeding sibling (handler or not), one nesting level down, through
@@ -1033,7 +1153,7 @@ def plan(tier, seed):
     rng_u = random.Random(seed * 1000003 + 17)
     for c in fixed:
         usage(c, rng_u)
-    special = family_callables()
+    special = family_callables() + family_audit3()
     for c in special:
         usage(c, rng_u)
     cases = corpus() + fixed + special
@@ -1041,6 +1161,11 @@ def plan(tier, seed):
     planned += [gen_case(rng) for _ in range(n)]
     rng_o = random.Random(seed * 1000003 + 18)
     planned += [gen_case(rng_o, ofut=True) for _ in range(n // 25)]
+    # third audit A3 / B8 (streams of their own)
+    rng_g = random.Random(seed * 1000003 + 20)
+    planned += [gen_case(rng_g, gco=True) for _ in range(n // 25)]
+    rng_p = random.Random(seed * 1000003 + 21)
+    planned += [gen_case(rng_p, pm=True) for _ in range(n // 50)]
     # what is decorated / how an asyncio_fn is written (a stream of its own: everything above is what it was without them)
     rng_x = random.Random(seed * 1000003 + 19)
     for c in fixed + planned:
@@ -1079,6 +1204,13 @@ def shrink_ys(y):
             if c[0] == "plain" and has_yield(q):
                 continue
             yield ["task", c, q]
+    elif tag == "gco":
+        yield y[1]                     # the same declaration with an `async def` asyncio_fn
+        for e2 in shrink_ys(y[1]):
+            if isinstance(e2, list) and e2[0] == "task" and e2[1][1] and e2[1][0] in AFN_KINDS:
+                yield ["gco", e2]
+            else:
+                yield e2
     elif tag == "pval":
         yield y[1]
         if y[1] != "none":
@@ -1288,8 +1420,8 @@ def redeclare_ys(y, kind, afn, var):
         return [y[0]] + [redeclare_ys(x, kind, afn, var) for x in y[1:]]
     if y[0] in MAP_TAGS:
         return [y[0]] + [[k, redeclare_ys(x, kind, afn, var)] for k, x in y[1:]]
-    if y[0] == "pval":
-        return ["pval", redeclare_ys(y[1], kind, afn, var)]
+    if y[0] in ("pval", "gco"):
+        return [y[0], redeclare_ys(y[1], kind, afn, var)]
     return y
 
 
@@ -1301,7 +1433,10 @@ def signature(case, v):
     # the model mirrors the open findings branch for branch, so a case inside one has CORR=ok; a spec failure that comes WITH a
     # correspondence difference is something else and keeps the name of its clause (audit 2, N8)
     if clause in DIVERGENCE_CLAUSES and v.get("corr", "ok") == "ok":
-        p = expand(case)[1]
+        c0, p = expand(case)
+        if is_pure_method(c0):
+            # `obj.m.asyncio` of a pure=True method: PureAsyncDecoratorBinder has no `asyncio` (AttributeError, nothing runs)
+            return "pure-method-has-no-asyncio"
         if has_base_handler_and_raise(p):
             # a BaseException-only error of an awaited child is not delivered to the body by convert_asynq_to_async
             return "base-exception-not-delivered-to-handler"
@@ -1312,6 +1447,9 @@ def signature(case, v):
         if "pval" in tags:
             # AsyncProxyDecorator.asyncio (unwrap_coroutine) awaits whatever the function returned unless it is a ConstFuture
             return "async-proxy-non-future-result-not-resolved"
+        if "gco" in tags:
+            # resolve_awaitables tests isinstance(x, collections.abc.Awaitable): False for a generator-based coroutine
+            return "generator-based-asyncio_fn-rejected-at-yield"
         if tags & set(OFUT_TAGS):
             # resolve_awaitables knows ConstFuture only: an ErrorFuture / a lazy Future at a yield is a TypeError under asyncio
             return "non-const-future-yield-rejected-by-asyncio"
@@ -1559,7 +1697,11 @@ class Harness(object):
             return thunk()
 
         class K(object):
-            pass
+            # the product cell pure x method (third audit B8): `K().pm.asyncio` does not exist (PureAsyncDecoratorBinder)
+            @asynq.asynq(pure=True)
+            def pm(self, label, body):
+                H.check_recv(self, 0, label)
+                return (yield from H.block(label, body, True))
 
         @adeco()
         def canary():
@@ -1581,9 +1723,12 @@ class Harness(object):
             return 0
         return 1 + (label // 2) % 2 if self.wrapc == 1 else min(self.wrapc - 1, 2)
 
-    def aform(self, afn, label):
+    def aform(self, afn, label, gco=False):
         """usage flag `afnobj`: HOW an explicit asyncio_fn= is written (never for the root call: asyncio.run and
-        ensure_future of the harness want what `async def` gives).  0 `async def`; see `wrap_afn`"""
+        ensure_future of the harness want what `async def` gives).  0 `async def`; see `wrap_afn`.  `gco`: the call site is
+        inside a ["gco", task] node - the seventh form, whatever the flag says"""
+        if gco and afn:
+            return AFN_FORM_GENCORO
         if not self.afnobj or not afn or label is None or label == self.root_label:
             return 0
         return 1 + (label // 2) % AFN_FORMS if self.afnobj == 1 else min(self.afnobj - 1, AFN_FORMS)
@@ -1593,8 +1738,12 @@ class Harness(object):
         1 a plain function returning the coroutine          2 a plain function returning a generic awaitable (an object with
         __await__ only: neither a coroutine nor an asyncio future)      3 a plain function returning an asyncio Task
         4 a functools.partial of the coroutine function     5 an object with `async def __call__`
-        6 an object whose __call__ returns a generic awaitable"""
+        6 an object whose __call__ returns a generic awaitable
+        7 (ys tag "gco" only) a generator-based coroutine: `@types.coroutine def f(..): r = yield from g(..).__await__(); return r`
+          - what `f(..)` returns is a generator object that `await` accepts and inspect.isawaitable() recognises, but that is
+          not an instance of collections.abc.Awaitable"""
         import functools
+        import types
         asyncio = self.asyncio
         if form == 0:
             return g
@@ -1630,6 +1779,12 @@ class Harness(object):
                 def __call__(self, *a, **k):
                     return Deferred(g(*a, **k))
             return DeferredCallable()
+        if form == AFN_FORM_GENCORO:
+            @types.coroutine
+            def f(*a, **k):
+                r = yield from g(*a, **k).__await__()
+                return r
+            return f
         raise IllFormed("no such form of an asyncio_fn: %r" % (form,))
 
     def wrap_callable(self, f, form, gen):
@@ -1658,10 +1813,10 @@ class Harness(object):
             return CallableObject()
 
     # ------------------------------------------------------------------ declarations (built when first used)
-    def fn_for(self, kind, afn, var, label=None):
+    def fn_for(self, kind, afn, var, label=None, gco=False):
         """the function of kind gen / plain / dedup / proxy declared with (afn, var); `label`: the call site (it selects the
-        form of the decorated callable and of the asyncio_fn under the usage flags wrapc / afnobj)"""
-        wf, af = self.wform(kind, label), self.aform(afn, label)
+        form of the decorated callable and of the asyncio_fn under the usage flags wrapc / afnobj); `gco`: see `aform`"""
+        wf, af = self.wform(kind, label), self.aform(afn, label, gco)
         key = (kind, afn, var, wf, af)
         f = self.fns.get(key)
         if f is not None:
@@ -1709,9 +1864,9 @@ class Harness(object):
         self.fns[key] = f
         return f
 
-    def meth_for(self, afn, var, label=None):
+    def meth_for(self, afn, var, label=None, gco=False):
         """name of the method of K declared with (afn, var); bind = var // 2: 0 method, 1 classmethod, 2 staticmethod"""
-        af = self.aform(afn, label)
+        af = self.aform(afn, label, gco)
         name = "m_%d_%d" % (afn, var) + ("_f%d" % af if af else "")
         if name in self.K.__dict__:
             return name
@@ -1844,16 +1999,23 @@ class Harness(object):
     #                       @async_proxy(asyncio_fn=asyncio_call) of the library); a plain synchronous call too (async_call(child,
     #                       args)) unless the callee is declared with sync_fn (async_call would use its .asynq()) or @deduplicate(),
     #                       and only on the pure-Python build
-    def target(self, c, p):
+    def target(self, c, p, gco=False):
         kind, afn, label = c[:3]
         var = call_var(c)
         args = ()
         if kind == "pure":
-            if var:
+            if var == PURE_METHOD_VAR and not afn:
+                # a pure=True METHOD, through the instance or (label % 4 >= 2) through the class
+                if label % 4 >= 2:
+                    fn, args = self.K.pm, (self.inst,)
+                else:
+                    fn = self.inst.pm
+            elif var:
                 raise IllFormed("no such declaration %r" % (c,))
-            fn = self.pure_fn
+            else:
+                fn = self.pure_fn
         elif kind == "meth":
-            name = self.meth_for(afn, var, label)
+            name = self.meth_for(afn, var, label, gco)
             other = label % 4 >= 2
             if var // 2 == 0:
                 fn = getattr(self.K if other else self.inst, name)
@@ -1869,15 +2031,19 @@ class Harness(object):
                 except (TypeError, copy.Error):
                     pass          # a build whose binder type cannot be copied: the wrapper itself is used
         else:
-            fn = self.fn_for(kind, afn, var, label)
+            fn = self.fn_for(kind, afn, var, label, gco)
         if label % 2 == 1:
             return fn, args + (label,), {"body": p}
         return fn, args + (label, p), {}
 
-    def make(self, c, p):
-        """child.asynq(args): an AsyncTask - or, in asyncio mode, a coroutine"""
-        fn, args, kwargs = self.target(c, p)
-        if c[2] % 5 == 3:
+    def make(self, c, p, gco=False):
+        """child.asynq(args): an AsyncTask - or, in asyncio mode, a coroutine (`gco`: the generator object of a generator-based
+        asyncio_fn; such a call site never goes through asynq.async_call, whose `await fn.asyncio(..)` accepts the generator)"""
+        fn, args, kwargs = self.target(c, p, gco)
+        if c[2] % 5 == 3 and not gco and not is_pure_method(c):
+            # (a pure=True METHOD handed to asynq.async_call while the flag is on meets the same missing attribute as the root of
+            # finding pure-method-has-no-asyncio - asyncio_call does `fn.asyncio(..)` -: seen by hand; such a call site is always
+            # called directly, the finding is generated at the root only)
             return self.tracked(self.asynq.async_call.asynq(fn, *args, **kwargs), c[2])
         if c[0] == "pure":
             return self.tracked(fn(*args, **kwargs), c[2])
@@ -1917,9 +2083,17 @@ class Harness(object):
     def acall(self, c, p):
         """child.asyncio(args)"""
         fn, args, kwargs = self.target(c, p)
-        if c[2] % 5 == 3:
+        if c[2] % 5 == 3 and not is_pure_method(c):
             return self.tracked(self.asynq.async_call.asyncio(fn, *args, **kwargs), c[2])
-        return self.tracked(fn.asyncio(*args, **kwargs), c[2])
+        try:
+            bound = fn.asyncio
+        except AttributeError as e:
+            # the expression `fn.asyncio(args)` itself fails (a pure=True method: its binder has no such attribute): that is
+            # the outcome of "awaiting fn.asyncio(args)" - handed to the caller as a coroutine that raises it
+            async def failed(e=e):
+                raise e
+            return failed()
+        return self.tracked(bound(*args, **kwargs), c[2])
 
     def build(self, y, labels, cond, in_cond=False):
         """the Python object of a yielded structure.  `labels`: the tasks yielded together that have to be finished when
@@ -1954,6 +2128,14 @@ class Harness(object):
         if tag == "task":
             (cond if in_cond else labels).append(y[1][2])
             return self.make(y[1], y[2])
+        if tag == "gco":
+            t = y[1]
+            if not (isinstance(t, list) and t[0] == "task" and t[1][1] and t[1][0] in AFN_KINDS):
+                raise IllFormed("bad gco %r" % (y,))
+            # (whether the engine takes the object as an awaitable at all is what the engines - as they are - disagree on: the
+            # child has to be finished only if it has been STARTED, like the tasks inside a container subclass)
+            cond.append(t[1][2])
+            return self.make(t[1], t[2], gco=True)
         if tag == "tup":
             return tuple(self.build(x, labels, cond, in_cond) for x in y[1:])
         if tag == "lst":
@@ -2251,12 +2433,16 @@ def run_case(case):
                         kinds.add("child=%s%s" % (x[1][0], "+afn" if x[1][1] else ""))
                         if call_var(x[1]) % 2:
                             kinds.add("child-declared-with-sync_fn")
-                        if call_var(x[1]) // 2:
+                        if is_pure_method(x[1]):
+                            kinds.add("child=pure-method")
+                        elif call_var(x[1]) // 2:
                             kinds.add("child=" + BIND_NAMES[call_var(x[1]) // 2])
                     elif x[0] in CONTAINER_TAGS:
                         shapes.add("yield=%s%s" % (x[0], "-empty" if len(x) == 1 else ""))
                     elif x[0] == "pval":
                         shapes.add("yield=proxy-returning-%s" % ("none" if x[1] == "none" else "container"))
+                    elif x[0] == "gco":
+                        shapes.add("child-asyncio_fn-is-generator-based-coroutine")
                     else:
                         shapes.add("yield=" + x[0])
                 else:
@@ -2304,7 +2490,9 @@ def run_case(case):
     if case.get("afnobj") and has_child_afn(p):
         feats.append("usage=afnobj")
         feats.append("asyncio_fn-not-async-def=" + ("by-label" if case["afnobj"] == 1 else "form%d" % (case["afnobj"] - 1)))
-    if call_var(c) // 2:
+    if is_pure_method(c):
+        feats.append("top=pure-method")
+    elif call_var(c) // 2:
         feats.append("top=" + BIND_NAMES[call_var(c) // 2])
     if case.get("reuse") and has_repeated_const(p):
         feats.append("constant-object-yielded-again")
@@ -2346,6 +2534,6 @@ def ys_depth(y):
             best = max(best, d + 1)
             for x in (y[1:] if y[0] not in MAP_TAGS else [w[1] for w in y[1:]]):
                 stack.append((x, d + 1))
-        elif isinstance(y, list) and y[0] == "pval":
+        elif isinstance(y, list) and y[0] in ("pval", "gco"):
             stack.append((y[1], d))
     return best
